@@ -210,7 +210,7 @@ var tagPool = []string{"a", "A", "b", "x", "X", "y", "a,omitempty", ",omitempty"
 
 var embeddable = []string{"EmbA", "EmbB", "Deep", "Dup"}
 
-var mapKeyKinds = []string{"string", "string", "string", "@NamedStr", "int", "int8", "int16", "int32", "int64", "uint", "uint8", "uint16", "uint32", "uint64", "uintptr", "@KText", "@NamedInt", "@KPS"}
+var mapKeyKinds = []string{"string", "string", "string", "@NamedStr", "int", "int8", "int16", "int32", "int64", "uint", "uint8", "uint16", "uint32", "uint64", "uintptr", "@KText", "@NamedInt", "@KPS", "@IntKT"}
 
 // GenType draws a type descriptor.
 func GenType(rt *rapid.T, o TypeOpts) TypeDesc {
